@@ -158,6 +158,18 @@ static void dump_tree(const splay_tree *t, int *first) {
     dump_tree(t->right, first);
 }
 
+
+/* auth.cache container: shape of the real splay tree, `(` left key `:` ctime right `)`, `.` = NULL
+ * (recursive like mod_auth_tag_old_entries itself) */
+static void ltv_shape(const splay_tree *t) {
+    if (!t) { fputc('.', stdout); return; }
+    fputc('(', stdout);
+    ltv_shape(t->left);
+    printf("%d:%lld", t->key, (long long)((const http_auth_cache_entry *)t->data)->ctime);
+    ltv_shape(t->right);
+    fputc(')', stdout);
+}
+
 /* canonical rendering of the Digest challenges in WWW-Authenticate */
 static void print_digest_challenges(const buffer *vb) {
     const char *s = vb->ptr;
@@ -301,6 +313,43 @@ int main(void) {
             if (mod_auth_algorithm_parse(&ai, (char *)in, n)) printf("%d %u\n", ai.dalgo, ai.dlen);
             else puts("0");
             free(in);
+            continue;
+        }
+        if (ntok >= 3 && 0 == strcmp(tok[0], "splay")) {
+            /* splay <max-age> <cap(8192: keys[] in mod_auth_periodic_cleanup)> ops…:
+             * the real http_auth_cache_query / http_auth_cache_insert / mod_auth_periodic_cleanup
+             * (and through them algo_splaytree.c) on a tree of real http_auth_cache_entry */
+            const time_t max_age = (time_t)strtoll(tok[1], NULL, 10);
+            splay_tree *t = NULL;
+            const unix_time64_t saved = log_monotonic_secs;
+            int bad = (8192 != atoi(tok[2]));
+            for (int j = 3; j < ntok && !bad; ++j) {
+                const char *o = tok[j];
+                if (j > 3) fputc(' ', stdout);
+                if (o[0] == 'q' || o[0] == 'i' || o[0] == 'I') {
+                    char *e;
+                    const int k = (int)strtol(o + 1, &e, 10);
+                    const http_auth_cache_entry *ae = http_auth_cache_query(&t, k);
+                    if (ae) printf("%lld", (long long)ae->ctime); else fputc('-', stdout);
+                    if (o[0] != 'q') {
+                        if (*e != ',') { bad = 1; break; }
+                        log_monotonic_secs = (unix_time64_t)strtoll(e + 1, NULL, 10);
+                        http_auth_cache_entry *ne = http_auth_cache_entry_init(NULL, 0, "u", 1, "u", 1, "p", 1);
+                        http_auth_cache_insert(&t, k, ne, http_auth_cache_entry_free);
+                    }
+                    if (o[0] != 'I') ltv_shape(t);
+                }
+                else if (o[0] == 'c') {
+                    mod_auth_periodic_cleanup(&t, max_age, (unix_time64_t)strtoll(o + 1, NULL, 10));
+                    ltv_shape(t);
+                }
+                else bad = 1;
+            }
+            if (bad) fputs(" bad-op", stdout);
+            if (ntok == 3) fputc('-', stdout);
+            fputc('\n', stdout);
+            while (t) { http_auth_cache_entry_free(t->data); t = splaytree_delete_splayed_node(t); }
+            log_monotonic_secs = saved;
             continue;
         }
         if (ntok < 9 || 0 != strcmp(tok[0], "run")) { puts("bad-op"); continue; }
